@@ -50,7 +50,7 @@ CHECKS = {
             'orders): every proper prefix, extensions, every control word replaced by 13+ boundary values, every byte xor 01 / '
             'xor 80 / FF; plus all strings of length <= 6 (8) over a 5-byte alphabet for 23 small schemas. decode() must return '
             'or raise ProphyError within 4x the Python-call count of the largest valid decode; returned messages must encode '
-            'and re-decode to a fixpoint; tracemalloc bounds allocation on large control values. Seven hand-written descriptors (sizer shift, member-less structs) get a layout-free menu (every prefix, every 1/2/4-byte word at every offset x boundary values) and the runtime element bound as a third oracle.',
+            'and re-decode to a fixpoint; tracemalloc bounds allocation on large control values. Thirteen hand-written descriptors (sizer shift, member-less structs, struct pairs sharing one array or bytes type object) get a layout-free menu (every prefix, every 1/2/4-byte word at every offset x boundary values) and the runtime element bound as a third oracle.',
             'Promptness is measured in Python-level calls (sys.setprofile), not wall time; memory is measured on control-word '
             'faults only.', '4 C06'),
     'C07': ('FE+CPP', 'fault_enumeration',
